@@ -5,43 +5,53 @@
 (* tampered file.  Steps follow the implementation's order:                    *)
 (*   ParseHeader  (magic, version, required attributes, cipher, footer)        *)
 (*   KeyHashGate  (SHA-256(cipher name ++ key) must equal vmware.keyHash)      *)
-(*   Decrypt      (GCM over re-serialised header ++ aad; strip footer+padding) *)
-(*   VerifyTag    -> Return plaintext | Fail                                   *)
+(*   DecryptChunk (GCM over re-serialised header ++ aad; the encrypted section  *)
+(*                 is processed in 4 MiB chunks appended in order to a private *)
+(*                 buffer; footer and padding are stripped)                    *)
+(*   VerifyTag    -> Return the buffer | Fail (nothing is returned)            *)
 (* tamper names the part of the file that was altered after sealing.           *)
-EXTENDS Integers, FiniteSets, TLC
+EXTENDS Integers, Sequences, FiniteSets, TLC
 
 Tampers == {"none", "attr-value", "attr-name", "attr-type", "keyhash", "iv", "aad", "ct-first", "ct-last", "ct-padding", "tag", "tag-size", "cryptofooter"}
-LenClasses == {"empty", "one", "block-1", "block", "block+1", "big"}
+LenClasses == {"empty", "one", "block-1", "block", "block+1", "big", "multi"}
+\* number of 4 MiB chunks of the encrypted section (payload + padding + crypto footer)
+NChunks(len) == CASE len = "big" -> 2 [] len = "multi" -> 4 [] OTHER -> 1
+Payload(len) == [c \in 1..NChunks(len) |-> c]
 
 VARIABLES sealed,   \* [len, extra (number of extra attributes), aad (sealed with associated data?), tamper]
           given,    \* [key ("right"/"wrong"), aad ("same"/"none"/"other")]
-          phase, out
-vars == <<sealed, given, phase, out>>
+          phase, out,
+          buf, k    \* private plaintext buffer (sequence of chunk numbers) and chunks processed
+vars == <<sealed, given, phase, out, buf, k>>
 
 Init == /\ sealed \in [len : LenClasses, extra : 0..2, aad : BOOLEAN, tamper : Tampers]
         /\ given \in [key : {"right", "wrong"}, aad : {"same", "none", "other"}]
-        /\ phase = "start" /\ out = "nothing"
+        /\ phase = "start" /\ out = "nothing" /\ buf = <<>> /\ k = 0
 
 \* does the authenticated data the reader feeds to GCM equal what was sealed?
 AadMatches == IF sealed.aad THEN given.aad = "same" ELSE given.aad \in {"none", "same"}
 HeaderIntact == sealed.tamper \notin {"attr-value", "attr-name", "attr-type", "iv"}
 BodyIntact   == sealed.tamper \notin {"ct-first", "ct-last", "ct-padding", "cryptofooter", "tag", "tag-size"}
 
-ParseHeader == phase = "start" /\ phase' = "parsed" /\ UNCHANGED <<sealed, given, out>>
+ParseHeader == phase = "start" /\ phase' = "parsed" /\ UNCHANGED <<sealed, given, out, buf, k>>
 KeyHashGate == /\ phase = "parsed"
                /\ phase' = IF given.key = "right" /\ sealed.tamper # "keyhash" THEN "keyok" ELSE "failed"
-               /\ UNCHANGED <<sealed, given, out>>
-DecryptVerify == /\ phase = "keyok"
+               /\ UNCHANGED <<sealed, given, out, buf, k>>
+DecryptChunk == /\ phase = "keyok" /\ k < NChunks(sealed.len)
+                /\ k' = k + 1 /\ buf' = Append(buf, k + 1)
+                /\ UNCHANGED <<sealed, given, phase, out>>
+DecryptVerify == /\ phase = "keyok" /\ k = NChunks(sealed.len)
                  /\ IF HeaderIntact /\ BodyIntact /\ AadMatches /\ sealed.tamper # "aad"
-                    THEN phase' = "returned" /\ out' = "payload"
+                    THEN phase' = "returned" /\ out' = buf
                     ELSE phase' = "failed" /\ out' = "nothing"
-                 /\ UNCHANGED <<sealed, given>>
-Next == ParseHeader \/ KeyHashGate \/ DecryptVerify
+                 /\ UNCHANGED <<sealed, given, buf, k>>
+Next == ParseHeader \/ KeyHashGate \/ DecryptChunk \/ DecryptVerify
 NoNext == FALSE /\ UNCHANGED vars
 Spec == Init /\ [][Next]_vars
 
 Done == phase \in {"returned", "failed"}
-RoundTrip == (Done /\ sealed.tamper = "none" /\ given.key = "right" /\ AadMatches) => (phase = "returned" /\ out = "payload")
+RoundTrip == (Done /\ sealed.tamper = "none" /\ given.key = "right" /\ AadMatches) => (phase = "returned" /\ out = Payload(sealed.len))
 NoPlaintextOnFailure == phase = "failed" => out = "nothing"
+ReturnsOnlyThePayload == phase = "returned" => out = Payload(sealed.len)
 AuthFailsClosed == (Done /\ (sealed.tamper # "none" \/ given.key = "wrong" \/ ~AadMatches)) => phase = "failed"
 =============================================================================
